@@ -3,10 +3,11 @@ from __future__ import annotations
 from appsession import *  # noqa
 
 ID = "C09"
-PROOF_MODULES = ["VncProofs.C08", "VncProofs.SystemExit"]
+PROOF_MODULES = ["VncProofs.C08", "VncProofs.SystemExit", "VncProofs.SystemExit2"]
 THEOREMS = ["Vnc.C09_completed_iff_closed", "Vnc.C09_zero_only_if_completed", "Vnc.C09_nonzero_cases", "Vnc.C09_run_zero", "Vnc.C09_timeout_bound",
             "Vnc.C09_timeout_status", "Vnc.C08_advance_markers", "Vnc.C08_closes_last",
-            "Vnc.procRun_completed", "Vnc.C09_proc_zero", "Vnc.C09_proc_zero_conv", "Vnc.advance_completed_done", "Vnc.C09_proc_timeout", "Vnc.C09_proc_stop_fixed"]
+            "Vnc.procRun_completed", "Vnc.C09_proc_zero", "Vnc.C09_proc_zero_conv", "Vnc.advance_completed_done", "Vnc.C09_proc_timeout", "Vnc.C09_proc_stop_fixed",
+            "Vnc.procRun_chainOK", "Vnc.C09_proc_zero_all_commands", "Vnc.C09_proc_failed_nonzero", "Vnc.sys_dead_no_progress", "Vnc.sys_dead_stays"]
 TRUSTED = [
     "Lean 4.33 kernel; standard axioms only",
     "real process exit (sys.exit(reactor.exit_status)), signal handling, sockets and the wall clock are not modelled: vncdo() runs in-process with the reactor replaced by a virtual clock; "
